@@ -23,7 +23,7 @@ VARIABLES cfg,      \* [n, cores, amp (dense amplitudes), meas (sorted 0-based m
           rows      \* completed samples (sequence of bit sequences)
 vars == <<cfg, s, i, prefix, rows>>
 
-H(a, b, c) == (a * 57 + b * 131 + c * 29 + a * b * 7 + b * c * 3 + 11) % 1023
+H(a0, b, c) == LET a == a0 + SaltValue IN (a * 57 + b * 131 + c * 29 + a * b * 7 + b * c * 3 + 11) % 1023
 
 \* squared modulus of the amplitude of basis state x (sequence of bits)
 Prob(x) == CAbs2(At(cfg.amp, x, [k \in 1..Len(x) |-> 0]))
